@@ -46,7 +46,8 @@ pub fn replay_one(b: &Value, rng: &mut StdRng) -> Option<String> {
     for c in &cones { s0.extend(gen::interior(c, rng, false)); z0.extend(gen::interior(c, rng, true)); }
     let mut bb = vec![0.0; m];
     for i in 0..m {
-        bb[i] = match bcls[i] { "fin" => s0[i] + (0..n).map(|j| a[i][j] * x0[j]).sum::<f64>(), "big" => 1e15, _ => 1e30 };
+        bb[i] = match bcls[i] { "fin" => s0[i] + (0..n).map(|j| a[i][j] * x0[j]).sum::<f64>(), // "at or above": half of the instances sit exactly at the bound
+            "big" => if rng.gen::<bool>() { 1e15 } else { 1e10 }, _ => if rng.gen::<bool>() { 1e30 } else { 1e20 } };
         if bcls[i] != "fin" { z0[i] = 0.0; }
     }
     let mut q = vec![0.0; n];
